@@ -741,7 +741,8 @@ class PureScheduler:                                    # pylint: disable=r0902
         Similar but in order to clear the exceptions,
         we need to run gather() instead
         """
-        exception_tasks = [task for task in tasks if task._exception]
+        exception_tasks = [task for task in tasks
+                           if task._exception is not None]
         for task in exception_tasks:
             task.cancel()
             # if DEBUG is turned on, provide details on the exceptions
@@ -1042,7 +1043,7 @@ class PureScheduler:                                    # pylint: disable=r0902
                                      timeout=self._remaining_timeout(),
                                      return_when=asyncio.FIRST_COMPLETED)
 
-            done_ok = {t for t in done if not t._exception}
+            done_ok = {t for t in done if t._exception is None}
             await self._feedback(done_ok, "DONE")
             done_ko = done - done_ok
             await self._feedback(done_ko, "RAISED EXC.")
@@ -1070,7 +1071,7 @@ class PureScheduler:                                    # pylint: disable=r0902
             critical_failure = False
             for done_task in done:
                 done_job = done_task._job               # pylint: disable=W0212
-                if done_job.raised_exception():
+                if done_job.raised_exception() is not None:
                     critical_failure = critical_failure \
                         or done_job.is_critical()
                     await self._feedback(
@@ -1259,7 +1260,8 @@ class PureScheduler:                                    # pylint: disable=r0902
         idle = self.jobs - running
         nb_idle = len(idle)
 
-        exceptions = {j for j in self.jobs if j.raised_exception()}
+        exceptions = {j for j in self.jobs
+                      if j.raised_exception() is not None}
         criticals = {j for j in exceptions if j.is_critical()}
 
         message = "scheduler has a total of {} jobs".format(nb_total)
